@@ -243,12 +243,15 @@ def run_soup(case):
         data = "\r\n".join(lines) + "\r\n"
     elif kind == "bytes":
         data = bytes(case[1])
+    elif kind == "blank":
+        _, u, n = case
+        data = bytes((u * n)[:n]).decode("ascii") if n % 2 else bytes((u * n)[:n])
     else:
         data = "".join(CHARS[i] for i in case[1])
         if "\xff" in data:
             data = data.replace("\xff", "").encode("utf-8") + b"\xff" * data.count("\xff")
     labels, fails = run_all(data, case, kind)
-    return {"state": (kind, case[1:], tuple(labels)), "trans": len(labels), "nontrivial": len(case[-1]) >= 2 if kind != "bytes" else True,
+    return {"state": (kind, case[1:], tuple(labels)), "trans": len(labels), "nontrivial": (len(case[-1]) >= 2 if kind not in ("bytes", "blank") else True),
             "fails": fails, "outcome": kind + ":" + ",".join(sorted(set(labels)))}
 
 
@@ -466,6 +469,11 @@ def run(ctx):
         for n in range(0, 4):
             for t in itertools.product(range(len(CHARS)), repeat=n):
                 yield ("chars", t)
+        # inputs of every length 0..120 (and a few long ones) that consist of blank lines / white space only
+        for unit in (10, 13, 32, 9, (13, 10), (10, 32), (13, 10, 9), (32, 13, 10)):
+            u = (unit,) if isinstance(unit, int) else unit
+            for n in list(range(0, 121)) + [400, 1000]:  # the unfold regex is quadratic in runs of blank lines: 5000 already take seconds (slow, not endless)
+                yield ("blank", u, n)
 
     def gen_iso():
         nmenu = len(GOOD) + len(BAD)
